@@ -309,7 +309,10 @@ def exec (st : State) (c : Cmd) : State × Outcome :=
   | .quit e => (st, .quit e)
   | .tick => (st, .msg .scheduleNextJob)
   | .job u startBlock worker =>
-    ({ st with files := runJob st.cfg u.stage (startBlock / st.cfg.interval) st.files }, .msg (.jobSucceeded u worker))
+    -- work.NewRequest puts unit.Stage, the POSITION of the stage in Stages.stages, into the tier2 request, and
+    -- tier2 reads it as an index in the graph's staged modules (they differ when NewStages skipped stages)
+    let t := if st.fix.stageIdx then (st.stages.stageAt u.stage).idx else u.stage
+    ({ st with files := runJob st.cfg t (startBlock / st.cfg.interval) st.files }, .msg (.jobSucceeded u worker))
 
 /-- one step: execute the bag's command number `idx` and deliver its message -/
 def step (st : State) (idx : Nat) (elapsed : Bool) : State :=
@@ -350,5 +353,58 @@ def init (c : Cfg) (fix : Patch) (files : Files) : Except Err State :=
       .ok { cfg := c, fix := fix, stages := s1, pool := Pool.new c.workers, walker := walker,
             outDone := walker.isNone, storesDone := false,
             bag := initCmd.toList, files := files, ended := none }
+
+/-! ### specification vocabulary (used by the theorems of `Props/C05.lean`) -/
+
+mutual
+/-- the commands in flight inside a (possibly nested) batch -/
+def Cmd.atoms : Cmd → List Cmd
+  | .batch l => atomsList l
+  | c => [c]
+def atomsList : List Cmd → List Cmd
+  | [] => []
+  | c :: cs => c.atoms ++ atomsList cs
+end
+
+/-- the commands in flight: the bag with its batches unwrapped -/
+def State.inFlight (st : State) : List Cmd := atomsList st.bag
+
+def Cmd.jobUnit : Cmd → Option WorkUnit
+  | .job u _ _ => some u
+  | _ => none
+def Cmd.jobWorker : Cmd → Option Nat
+  | .job _ _ w => some w
+  | _ => none
+def Cmd.mergeUnit : Cmd → Option WorkUnit
+  | .merge u => some u
+  | _ => none
+
+/-- the states reachable from the initial state of a configuration: any command in flight may answer next, and
+the ramp-up clock of the worker pool is arbitrary -/
+inductive Reachable (c : Cfg) (fix : Patch) (files : Files) : State → Prop
+  | init {st : State} : init c fix files = .ok st → Reachable c fix files st
+  | step {st : State} (idx : Nat) (elapsed : Bool) : Reachable c fix files st → Reachable c fix files (step st idx elapsed)
+
+/-- did the step hand a unit to a worker? (the returned batch starts with the job command) -/
+def handedOut (st : State) (idx : Nat) (elapsed : Bool) : Option WorkUnit :=
+  if st.ended.isSome then none else
+  match st.bag[idx]? with
+  | some .scheduleNextJob | some .tick =>
+    match update { st with bag := st.bag.eraseIdx idx } .scheduleNextJob elapsed with
+    | .ok (_, some (.batch (.job u _ _ :: _))) => some u
+    | _ => none
+  | _ => none
+
+/-- run a schedule: the commands to execute, by their position in the bag, with the state of the ramp-up clock -/
+def runSched (st : State) (sched : List (Nat × Bool)) : State := sched.foldl (fun st c => step st c.1 c.2) st
+
+theorem Reachable.runSched {c : Cfg} {fix : Patch} {files : Files} {st : State} (h : Reachable c fix files st)
+    (sched : List (Nat × Bool)) : Reachable c fix files (runSched st sched) := by
+  induction sched generalizing st with
+  | nil => exact h
+  | cons x xs ih => exact ih (Reachable.step x.1 x.2 h)
+
+/-- the code as it is at HEAD: the stage-index fix (F21) is committed, the other two patches are not -/
+def _root_.SV.Stg.Patch.head : Patch := ⟨false, false, true⟩
 
 end SV.Sch
